@@ -358,7 +358,11 @@ class ECU(UDSClient):
                 logger.debug(f"ECU not ready: {e!r}")
                 if isinstance(e, ConnectionError) or isinstance(e.__cause__, ConnectionError):
                     logger.debug("Reconnecting…")
-                    await self.reconnect()
+                    try:
+                        await self.reconnect()
+                    except ConnectionError as e_reconnect:
+                        # The target does not accept connections yet; try again in the next round
+                        logger.debug(f"Reconnecting failed: {e_reconnect!r}")
         logger.info("ECU ready")
 
     async def wait_for_ecu(
